@@ -227,9 +227,15 @@ fn run_round(rep: &Report, seed: u64, p: &RoundParams) {
                     let mut log: Vec<(u64, usize, Obs)> = Vec::with_capacity(ops);
                     let mut mine: Vec<(Key, SocketAddr)> = Vec::new();
                     barrier.wait();
-                    for _ in 0..ops {
+                    for op_i in 0..ops {
                         let r = rng.below(100);
-                        let obs = if r < 50 || mine.is_empty() {
+                        let obs = if op_i < 3 {
+                            // every thread starts with gets of the same few keys: first gets race
+                            let k = keys[(op_i + t) % keys.len().min(3)].clone();
+                            let addr = do_get(&maps, &u, &k);
+                            mine.push((k.clone(), addr));
+                            Obs::Get { key: k, addr }
+                        } else if r < 50 || mine.is_empty() {
                             // get; bias to a small hot set early so that first gets race
                             let k = if rng.chance(1, 2) { keys[rng.usize_below(keys.len().min(6))].clone() } else { rng.pick(&keys).clone() };
                             let addr = do_get(&maps, &u, &k);
